@@ -32,7 +32,7 @@ def family(seed, n_scn, users_per):
             for u in users:
                 t = rnd.choice(["PEG", "pUSD", "pXBT"])
                 bal = s.B(u, t)
-                shape = rnd.choice(["one", "one", "two_same", "two_same", "three", "self", "conv_spend", "mixed", "zero"])
+                shape = rnd.choice(["one", "one", "two_same", "two_same", "three", "self", "conv_spend", "mixed", "zero", "selfret", "selfret", "illsum"])
                 around = lambda b: max(0, rnd.choice([b - 1, b, b + 1, b // 2, 2 * b, b - rnd.randint(0, 3), 1, 0]))
                 if shape == "one":
                     a = around(bal)
@@ -55,6 +55,12 @@ def family(seed, n_scn, users_per):
                     s.entry(h, u, [{"t": t, "amt": a, "to": [(u, a)]}, {"t": t, "amt": b2, "to": [(sink, b2)]}])
                     if a <= bal and b2 <= bal:
                         s.add(u, t, -b2); s.add(sink, t, b2)
+                elif shape == "selfret":
+                    # part of the first input comes back to the sender, the second transaction draws on what is really left
+                    scen.self_return(s, rnd, h, u, t, sink)
+                elif shape == "illsum":
+                    # outputs that do not add up to the input (wrapping around 2^64 / off by one): pays out more than it takes
+                    scen.ill_sum(s, rnd, h, u, t, sink, rnd.choice(users))
                 elif shape == "conv_spend":
                     # conversion, then spend of the converted asset (held batch)
                     a = around(s.B(u, "PEG"))
